@@ -13,6 +13,7 @@ package c19
 import (
 	"encoding/json"
 	"fmt"
+	"os"
 	"strings"
 
 	"github.com/benoitkugler/webrender/css/counters"
@@ -26,6 +27,36 @@ import (
 	"wrverif/rng"
 	"wrverif/sx"
 )
+
+// findings are buffered per class (kind, op, key) and flushed round-robin at the end, so that the
+// cap of res.Result can never drop the only representative of a class.
+var pending = map[string][]res.Finding{}
+var pendingOrder []string
+
+func add(out *res.Result, f res.Finding) {
+	k := f.Kind + "|" + f.Op + "|" + f.Key
+	out.Hit("finding-class:" + k)
+	if dbg := os.Getenv("WRH_C19_DEBUG"); dbg != "" && strings.Contains(k, dbg) && len(pending[k]) >= 2 && len(pending[k+"#dbg"]) < 40 {
+		pending[k+"#dbg"] = append(pending[k+"#dbg"], f)
+		fmt.Fprintf(os.Stderr, "DBG %s\n  in=%v\n  impl=%v model=%v\n", k, f.Input, f.Impl, f.Model)
+	}
+	if _, ok := pending[k]; !ok {
+		pendingOrder = append(pendingOrder, k)
+	}
+	if len(pending[k]) < 2 {
+		pending[k] = append(pending[k], f)
+	}
+}
+
+func flush(out *res.Result) {
+	for round := 0; round < 2; round++ {
+		for _, k := range pendingOrder {
+			if len(pending[k]) > round {
+				out.Add(pending[k][round])
+			}
+		}
+	}
+}
 
 // guard runs f and converts a panic into its message.
 func guard(f func() string) (s string, pan string) {
@@ -149,45 +180,35 @@ func (w *world) input(q query) string {
 	return string(b)
 }
 
-// classify names the kind of deviation from the specification, for specific known-findings matching.
-func (w *world) classify(q query, impl, spec string) string {
-	if q.value == 0 && impl == "" && spec != "" {
-		return "zero-renders-empty"
+var devNames = []string{"pad-counts-bytes", "zero-renders-empty", "sign-lost-on-fallback", "extends-unknown-style", "several-known-deviations"}
+
+// classify names the deviation from the specification: the model driver evaluates the specification
+// with each known deviation switched on; the class is the (first) one that reproduces the
+// implementation's output exactly, "other" if none does.
+func (w *world) classify(m *mp.Model, q query, impl string) (string, error) {
+	ans, err := m.Ask(sx.L(sx.A("variants"), sx.L(sx.A("ua"), sx.B(true)), w.styles, sx.L(sx.A("qs"), q.x())))
+	if err != nil {
+		return "", err
 	}
-	if q.value < 0 {
-		q2 := q
-		q2.value = -q.value
-		if s2, p2 := q2.run(w.cs); p2 == "" && s2 == impl {
-			return "sign-lost-on-fallback"
+	if ans.K != sx.List || len(ans.Xs) != 2 || len(ans.Xs[1].Xs) != len(devNames) {
+		return "", fmt.Errorf("variants: model answered %s", ans.String())
+	}
+	for i, v := range ans.Xs[1].Xs {
+		if len(v.Xs) == 2 && v.Xs[0].S == "ok" && v.Xs[1].S == impl {
+			return devNames[i], nil
 		}
 	}
-	if strings.HasSuffix(spec, impl) && len(spec) > len(impl) && !isASCII(spec) {
-		return "pad-counts-bytes"
-	}
-	if w.extendsUnknown(q.styleName(), 0) {
-		return "extends-unknown-style"
-	}
-	return "other"
-}
-
-func isASCII(s string) bool {
-	for i := 0; i < len(s); i++ {
-		if s[i] >= 0x80 {
-			return false
+	for _, sys := range []string{"cyclic", "fixed", "symbolic", "alphabetic", "numeric", "additive"} {
+		if _, ok := w.cs[sys]; ok {
+			return "style-named-like-system", nil // renderValue looks the SYSTEM keyword up in the set of visited STYLE names
 		}
 	}
-	return true
-}
-
-func (w *world) extendsUnknown(name string, depth int) bool {
-	d, ok := w.cs[name]
-	if !ok || depth > len(w.cs) || d.System.Extends == "" {
-		return false
+	for n, d := range w.cs {
+		if d.System.Extends != "" && d.System.System == n {
+			return "extends-self-loop", nil // a style extending a self-extending style loses that style's descriptors
+		}
 	}
-	if _, ok := w.cs[d.System.System]; !ok {
-		return true
-	}
-	return w.extendsUnknown(d.System.System, depth+1)
+	return "other", nil
 }
 
 // batch runs the queries on the real code and on the model, and records every difference.
@@ -216,27 +237,31 @@ func (w *world) batch(m *mp.Model, qs []query, out *res.Result, seed uint64) err
 		switch {
 		case pan != "":
 			out.Hit("impl:panic")
-			out.Add(res.Finding{Kind: "crash", Op: "crash:counters:" + op, Input: w.input(q), Impl: "panic: " + pan,
+			add(out, res.Finding{Kind: "crash", Op: "crash:counters", Input: w.input(q), Impl: "panic: " + pan,
 				Model: a.kind + " " + a.s, Reason: "the real code panics", Key: panicClass(pan), Seed: seed})
 			if a.kind != "panic" || panicClass(a.s) != panicClass(pan) {
-				out.Add(res.Finding{Kind: "corr", Op: "corr:counters:" + op, Input: w.input(q), Impl: "panic: " + pan, Model: a.kind + " " + a.s, Seed: seed})
+				add(out, res.Finding{Kind: "corr", Op: "corr:counters:" + op, Input: w.input(q), Impl: "panic: " + pan, Model: a.kind + " " + a.s, Seed: seed})
 			}
 			continue
 		case a.kind != "ok" || a.s != impl:
-			out.Add(res.Finding{Kind: "corr", Op: "corr:counters:" + op, Input: w.input(q), Impl: impl, Model: a.kind + " " + a.s, Seed: seed})
+			add(out, res.Finding{Kind: "corr", Op: "corr:counters:" + op, Input: w.input(q), Impl: impl, Model: a.kind + " " + a.s, Seed: seed})
 		}
 		if a.def {
 			out.Hit("judge:spec-defined")
 			if a.spec != impl {
-				out.Add(res.Finding{Kind: "judge", Op: "judge:counter-style:" + op, Input: w.input(q), Impl: impl, Model: a.spec,
-					Reason: "CSS Counter Styles 3 gives " + fmt.Sprintf("%q", a.spec), Key: w.classify(q, impl, a.spec), Seed: seed})
+				key, err := w.classify(m, q, impl)
+				if err != nil {
+					return err
+				}
+				add(out, res.Finding{Kind: "judge", Op: "judge:counter-style", Input: w.input(q), Impl: impl, Model: a.spec,
+					Reason: "CSS Counter Styles 3 gives " + fmt.Sprintf("%q", a.spec), Key: key, Seed: seed})
 			}
 		} else {
 			out.Hit("judge:spec-undefined")
 		}
 		if w.css == "" {
 			if why := parseBack(w.cs, q, impl); why != "" {
-				out.Add(res.Finding{Kind: "judge", Op: "judge:parse-back:" + op, Input: w.input(q), Impl: impl, Reason: why, Key: "parse-back", Seed: seed})
+				add(out, res.Finding{Kind: "judge", Op: "judge:parse-back:" + op, Input: w.input(q), Impl: impl, Reason: why, Key: "parse-back", Seed: seed})
 			}
 		}
 		if i == 0 {
@@ -261,6 +286,7 @@ func loadCSS(css string) (counters.CounterStyle, error) {
 // Run is the runner entry.
 func Run(tier string, seed uint64, modelPath, repo string, out *res.Result) error {
 	render.Quiet()
+	defer flush(out)
 	m, err := mp.Start(modelPath)
 	if err != nil {
 		return err
@@ -283,21 +309,31 @@ func Run(tier string, seed uint64, modelPath, repo string, out *res.Result) erro
 		return err
 	}
 	if len(chk.Xs) < 2 || chk.Xs[1].S != "1" {
-		out.Add(res.Finding{Kind: "corr", Op: "corr:counters:predefined-table", Input: "tree.UACounterStyle", Model: chk.String(),
+		add(out, res.Finding{Kind: "corr", Op: "corr:counters:predefined-table", Input: "tree.UACounterStyle", Model: chk.String(),
 			Reason: "WR/Gen/C19Styles.lean differs from the table the running code parsed"})
 	}
-	if err := runPredefined(m, ua, lo, hi, out); err != nil {
-		return err
+	only := os.Getenv("WRH_C19_ONLY") // development aid: run one part only
+	rA, rS := r.Sub(), r.Sub()
+	if only == "" || only == "predefined" {
+		if err := runPredefined(m, ua, lo, hi, out); err != nil {
+			return err
+		}
+		out.Exhaustive = true
 	}
-	out.Exhaustive = true
-	if err := runAuthor(m, r.Sub(), nAuthor, out); err != nil {
-		return err
+	if only == "" || only == "author" {
+		if err := runAuthor(m, rA, nAuthor, out); err != nil {
+			return err
+		}
 	}
-	if err := runOverflow(out); err != nil {
-		return err
+	if only == "" || only == "overflow" {
+		if err := runOverflow(out); err != nil {
+			return err
+		}
 	}
-	if err := runScopes(m, r.Sub(), nDocs, out); err != nil {
-		return err
+	if only == "" || only == "scope" {
+		if err := runScopes(m, rS, nDocs, out); err != nil {
+			return err
+		}
 	}
 	out.ModelCalls = m.N
 	return nil
@@ -360,18 +396,18 @@ func runAuthor(m *mp.Model, r *rng.R, n int, out *res.Result) error {
 			d, ok := cs[g.name]
 			in := fmt.Sprintf(`{"css":%q,"style":%q}`, css, g.name)
 			if !ok {
-				out.Add(res.Finding{Kind: "judge", Op: "judge:descriptor:rule-dropped", Input: in, Impl: "style not defined",
+				add(out, res.Finding{Kind: "judge", Op: "judge:descriptor:rule-dropped", Input: in, Impl: "style not defined",
 					Reason: "a rule that CSS Counter Styles 3 accepts was ignored", Key: g.system, Seed: seed})
 				continue
 			}
 			if _, isUA := tree.UACounterStyle[g.name]; isUA && len(authorNames(counters.CounterStyle{g.name: d})) == 0 {
-				out.Add(res.Finding{Kind: "judge", Op: "judge:descriptor:rule-dropped", Input: in, Impl: "predefined style kept",
+				add(out, res.Finding{Kind: "judge", Op: "judge:descriptor:rule-dropped", Input: in, Impl: "predefined style kept",
 					Reason: "an author rule overriding a predefined style was ignored", Key: g.system, Seed: seed})
 				continue
 			}
 			out.Hit("descriptor:checked")
 			if field, why := g.intentMismatch(d); field != "" {
-				out.Add(res.Finding{Kind: "judge", Op: "judge:descriptor:" + field, Input: in, Impl: fmt.Sprintf("%+v", d), Reason: why, Key: field, Seed: seed})
+				add(out, res.Finding{Kind: "judge", Op: "judge:descriptor:" + field, Input: in, Impl: fmt.Sprintf("%+v", d), Reason: why, Key: field, Seed: seed})
 			}
 		}
 		// queries
@@ -379,6 +415,15 @@ func runAuthor(m *mp.Model, r *rng.R, n int, out *res.Result) error {
 		targets := append([]string{}, names...)
 		if cr.P(1, 3) {
 			targets = append(targets, uaRefs[cr.Intn(len(uaRefs))], "nosuch")
+		}
+		// huge values only where the output stays short (symbolic / additive repeat a symbol value/weight times)
+		hugeOK := true
+		for _, g := range gs {
+			switch g.system {
+			case "cyclic", "fixed", "alphabetic", "numeric":
+			default:
+				hugeOK = false
+			}
 		}
 		for _, nm := range targets {
 			vals := []int{}
@@ -390,7 +435,11 @@ func runAuthor(m *mp.Model, r *rng.R, n int, out *res.Result) error {
 			for j := 0; j < 6; j++ {
 				vals = append(vals, cr.Range(-400, 400))
 			}
-			vals = append(vals, edgeValues[cr.Intn(len(edgeValues))])
+			if hugeOK {
+				vals = append(vals, edgeValues[cr.Intn(len(edgeValues))])
+			} else {
+				vals = append(vals, cr.Range(-3000, 3000))
+			}
 			for _, v := range vals {
 				qs = append(qs, query{api: "v", value: v, name: nm})
 				if cr.P(1, 3) {
